@@ -292,6 +292,9 @@ public:
         lowerBound = lowerBound_;
         inclLowerBound = inclLowerBound_;
       }
+      // equal bounds: the bound is included only if both intervals include it
+      if (lowerBound_ == pi->lowerBound_)
+        inclLowerBound = inclLowerBound_ && pi->inclLowerBound_;
 
       if (upperBound_ >= pi->upperBound_)
       {
@@ -303,6 +306,8 @@ public:
         upperBound = upperBound_;
         inclUpperBound = inclUpperBound_;
       }
+      if (upperBound_ == pi->upperBound_)
+        inclUpperBound = inclUpperBound_ && pi->inclUpperBound_;
       return new IntervalConstraint(lowerBound, upperBound, inclLowerBound, inclUpperBound, (precision_ > pi->getPrecision()) ? precision_ : pi->getPrecision());
     }
     else
@@ -322,17 +327,22 @@ public:
     {
       const IntervalConstraint& pi = dynamic_cast<const IntervalConstraint&>(c);
 
-      if (lowerBound_ <= pi.lowerBound_)
+      // equal bounds: the bound stays included only if both intervals include it
+      if (lowerBound_ < pi.lowerBound_)
       {
         lowerBound_ = pi.lowerBound_;
         inclLowerBound_ = pi.inclLowerBound_;
       }
+      else if (lowerBound_ == pi.lowerBound_)
+        inclLowerBound_ = inclLowerBound_ && pi.inclLowerBound_;
 
-      if (upperBound_ >= pi.upperBound_)
+      if (upperBound_ > pi.upperBound_)
       {
         upperBound_ = pi.upperBound_;
         inclUpperBound_ = pi.inclUpperBound_;
       }
+      else if (upperBound_ == pi.upperBound_)
+        inclUpperBound_ = inclUpperBound_ && pi.inclUpperBound_;
       if (pi.getPrecision() > precision_)
         precision_ = pi.getPrecision();
     }
